@@ -47,6 +47,27 @@ HALF_RANGES = {
 }
 
 
+MOVED = "; queried, then end points moved"
+
+
+def _edge(ctx, p1, p2, data, moved, C=None):
+    """The edge between p1 and p2; `moved`: it is first created somewhere else and queried (middle point, length,
+    description), then its vertices (and origin) are moved to where the contract looks at it."""
+    if not moved:
+        return factory.create(Vertex(p1, 0), Vertex(p2, 1), data)
+    v1, v2 = Vertex(np.array([1.0, 0.0, 0.0]), 0), Vertex(np.array([0.0, 1.0, 0.0]), 1)
+    origin = getattr(data, "origin", None)
+    if origin is not None:
+        data.origin.move_to(np.array([0.0, 0.0, 0.0]))
+    edge = factory.create(v1, v2, data)
+    _ = (edge.third_point.position, edge.length, edge.description, edge.is_valid)
+    v1.move_to(p1)
+    v2.move_to(p2)
+    if origin is not None:
+        edge.data.origin.move_to(C)
+    return edge
+
+
 @proof("C08", "AngleEdge/third-point-is-the-arc-midpoint", cases=list(HALF_RANGES),
        functions=[ANG + "arc_from_theta", ANG + "AngleEdge.third_point", FN + "arc_mid", FN + "divide_arc", FN + "unit_vector"],
        samples=25, timeout=100,
@@ -54,29 +75,29 @@ HALF_RANGES = {
             "C + Rot(axis, theta/2)(p1 - C): on the circle, in its plane, half-way, on the side the angle's sign describes")
 def angle_third_point(ctx):
     C, r0, rp, axis, radius = frame(ctx)
-    lo, hi = HALF_RANGES[ctx.case]
+    lo, hi = HALF_RANGES[ctx.case.replace(MOVED, "")]
     h = ctx.real("half", lo=lo, hi=hi)
     ch, sh = cs(ctx, h)
     c, s = ch * ch - sh * sh, 2 * sh * ch
     p1, p2 = C + r0, C + r0 * c + rp * s
-    edge = factory.create(Vertex(p1, 0), Vertex(p2, 1), E.Angle(2 * h, axis))
+    edge = _edge(ctx, p1, p2, E.Angle(2 * h, axis), MOVED in ctx.case)
     m = edge.third_point.position
     ctx.prove("middle-point-is-half-way-on-the-described-arc", ctx.eq(m, C + r0 * ch + rp * sh, tol=1e-6))
     ctx.prove("on-the-circle", ctx.eq(G.dist2(m, C), radius * radius, tol=1e-6))
     ctx.prove("in-the-plane-of-the-arc", ctx.eq(G.dot(m - C, axis), 0, tol=1e-6))
 
 
-@proof("C08", "OriginEdge/third-point-is-the-arc-midpoint", cases=["0<theta<pi"],
+@proof("C08", "OriginEdge/third-point-is-the-arc-midpoint", cases=["0<theta<pi", "0<theta<pi" + MOVED],
        functions=[ORG + "arc_from_origin", ORG + "OriginEdge.third_point", FN + "arc_mid", FN + "divide_arc"], samples=25, timeout=100,
        note="flatness 1, origin equidistant from both end points; origin-based arcs describe the minor arc (theta < pi)")
 def origin_third_point(ctx):
     C, r0, rp, axis, radius = frame(ctx)
-    lo, hi = HALF_RANGES[ctx.case]
+    lo, hi = HALF_RANGES[ctx.case.replace(MOVED, "")]
     h = ctx.real("half", lo=lo, hi=hi)
     ch, sh = cs(ctx, h)
     c, s = ch * ch - sh * sh, 2 * sh * ch
     p1, p2 = C + r0, C + r0 * c + rp * s
-    edge = factory.create(Vertex(p1, 0), Vertex(p2, 1), E.Origin(C, 1))
+    edge = _edge(ctx, p1, p2, E.Origin(C, 1), MOVED in ctx.case, C)
     m = edge.third_point.position
     ctx.prove("middle-point-is-half-way-on-the-circle-about-the-origin", ctx.eq(m, C + r0 * ch + rp * sh, tol=1e-6))
     ctx.prove("on-the-circle", ctx.eq(G.dist2(m, C), radius * radius, tol=1e-6))
@@ -123,7 +144,7 @@ def arc_length(ctx):
     ctx.prove("length-is-radius-times-included-angle", ctx.eq(length, radius * alpha, tol=1e-6))
 
 
-@proof("C08", "bounded/Angle-Origin-edge/length-is-radius-times-angle", cases=["angle", "origin"],
+@proof("C08", "bounded/Angle-Origin-edge/length-is-radius-times-angle", cases=["angle", "origin", "angle" + MOVED, "origin" + MOVED],
        functions=[BASE + "ArcEdgeBase.length", BASE + "ArcEdgeBase.is_valid", ANG + "AngleEdge.third_point", ORG + "OriginEdge.third_point"],
        samples=40, level="B", note="bounded stand-in only; 0 < theta < pi")
 def edge_length(ctx):
@@ -132,8 +153,8 @@ def edge_length(ctx):
     ch, sh = cs(ctx, h)
     c, s = ch * ch - sh * sh, 2 * sh * ch
     p1, p2 = C + r0, C + r0 * c + rp * s
-    data = E.Angle(2 * h, axis) if ctx.case == "angle" else E.Origin(C, 1)
-    edge = factory.create(Vertex(p1, 0), Vertex(p2, 1), data)
+    data = E.Angle(2 * h, axis) if ctx.case.startswith("angle") else E.Origin(C, 1)
+    edge = _edge(ctx, p1, p2, data, MOVED in ctx.case, C)
     length = edge.length
     if ctx.symbolic:
         theta = SR(ctx, 2 * h)
